@@ -50,9 +50,21 @@ package api
 //@   modifies world(ctx), calls v2OnSendPacket
 //@   ensures calls("v2OnSendPacket") == old(calls("v2OnSendPacket")) + 1
 
+// The n-th OnRecvPacket call of an execution (n = value of the ghost counter before the call) is recorded in
+// ghost functions of n: its result, the world of the context it was given as the call left it, and what it was
+// asked. Sound because the counter strictly increases, so every n occurs at most once per execution.
+//@ spec func v2RecvRes(n int) channeltypesv2.RecvPacketResult
+//@ spec func v2RecvWorld(n int) World
+//@ spec func v2RecvPayload(n int) channeltypesv2.Payload
+//@ spec func v2RecvDest(n int) string
+//@ spec func v2RecvSeq(n int) int
+
 //@ contract interface IBCModule.OnRecvPacket
 //@   modifies world(ctx), calls v2OnRecvPacket
 //@   ensures calls("v2OnRecvPacket") == old(calls("v2OnRecvPacket")) + 1
+//@   ensures result == v2RecvRes(old(calls("v2OnRecvPacket")))
+//@   ensures world(ctx) == v2RecvWorld(old(calls("v2OnRecvPacket")))
+//@   ensures payload == v2RecvPayload(old(calls("v2OnRecvPacket"))) && destinationClient == v2RecvDest(old(calls("v2OnRecvPacket"))) && sequence == v2RecvSeq(old(calls("v2OnRecvPacket")))
 
 //@ contract interface IBCModule.OnAcknowledgementPacket
 //@   modifies world(ctx), calls v2OnAcknowledgementPacket
